@@ -201,7 +201,7 @@ Section Run.
         exists g', buf', i'. split; [|exact F3].
         destruct (parse_stream NM cb data f (rs, O, nfw g buf)) as [s' r]. cbn [fst snd] in F1, F2.
         rewrite <- F1, <- F2. reflexivity. }
-      unfold parse_opened, opened_days. destruct o as [|data f|]; apply G.
+      unfold parse_opened, opened_days. destruct o as [data f|]; apply G.
     Qed.
 
     (** the walk and FinishReport: final sink contents, returned error, final reporter state *)
